@@ -106,16 +106,31 @@ def rule_position_helpers(facts, rid):
                 continue
             helpers = set()
 
+            seen_fn = set()
+
+            def into(d, depth):
+                """a first-party helper that does not take a position itself (e.g. takes the raw index value): the
+                position helpers it uses are the ones of this arm"""
+                if d and d.startswith("jaq_json::") and d not in seen_fn and depth < 3:
+                    seen_fn.add(d)
+                    hf = facts.hir_fn(d)
+                    if hf is not None:
+                        scan(hf["body"], depth + 1)
+
             def scan(expr, depth=0):
                 for n in find(expr, lambda n: n.get("k") in ("Path", "MethodCall")):
                     if n["k"] == "MethodCall":
                         d = n["m"].get("res") or n["m"].get("def")
                         if takes_pos(d):
                             helpers.add(d)
+                        else:
+                            into(d, depth)
                         continue
                     d = n["path"].get("def")
                     if (n["path"].get("dk") or "") in ("Fn", "AssocFn") and takes_pos(d):
                         helpers.add(d)
+                    elif (n["path"].get("dk") or "") in ("Fn", "AssocFn"):
+                        into(d, depth)
                     i = n["path"].get("id")
                     if i in inits and depth < 3:
                         # a local bound to a helper, to a tuple of helpers or to a closure shared by several arms
